@@ -194,11 +194,32 @@ fn reject_self_reference(
         };
         let cname = text(c, "name").unwrap_or_default();
         let ctype = text(c, "type").unwrap_or_else(|| cname.clone());
+        let bare = server.trim_start_matches('[').trim_end_matches(']');
         let ips: Vec<IpAddr> = if server.eq_ignore_ascii_case("localhost") {
             vec![IpAddr::from([127, 0, 0, 1]), IpAddr::from([0, 0, 0, 0, 0, 0, 0, 1])]
+        } else if let Ok(ip) = bare.parse::<IpAddr>() {
+            vec![ip]
+        } else if !bare.is_empty() && bare.chars().all(|c| c.is_ascii_hexdigit() || c == '.' || c == 'x' || c == 'X') {
+            // the short and the one-number spellings of an IPv4 address (`127.1`, `2130706433`, `0x7f000001`):
+            // the resolver turns them into addresses without asking anybody
+            use std::net::ToSocketAddrs;
+            (bare, 0u16).to_socket_addrs().map(|a| a.map(|x| x.ip()).collect()).unwrap_or_default()
         } else {
-            server.trim_start_matches('[').trim_end_matches(']').parse().into_iter().collect()
+            vec![]
         };
+        // an IPv4-mapped address is that IPv4 address; connecting to the unspecified address reaches this host
+        let ips: Vec<IpAddr> = ips
+            .into_iter()
+            .map(|ip| match ip {
+                IpAddr::V6(v6) => v6.to_ipv4_mapped().map(IpAddr::V4).unwrap_or(ip),
+                v4 => v4,
+            })
+            .map(|ip| match ip {
+                IpAddr::V4(_) if ip.is_unspecified() => IpAddr::from([127, 0, 0, 1]),
+                IpAddr::V6(_) if ip.is_unspecified() => IpAddr::from([0, 0, 0, 0, 0, 0, 0, 1]),
+                other => other,
+            })
+            .collect();
         for l in listeners {
             let lname = text(l, "name").unwrap_or_default();
             let ltype = text(l, "type").unwrap_or_else(|| lname.clone());
